@@ -62,7 +62,13 @@ def run(ctx: Ctx):
     if ok:
         at = GuardView(bcfg).guard_atoms(bcfg.node_of(rel[0].body[0]), stable_only=False)
         ok = not any("e %" in a or "% 2" in a for a in at)
-    ctx.ob("C09-O1", "R21 search discipline", bf, "the path search relaxes every residual edge (forward and backward) of a reached node that has capacity left, on strict improvement", ok, "", node=bf.node)
+    extra_at = []
+    if ok:
+        allowed = {atom_of("dist[u] + edge_cost[e] < dist[v]"), atom_of("dist[u] != float('inf')"), atom_of("edge_cap[e] > 0")}
+        at2 = GuardView(bcfg).guard_atoms(bcfg.node_of(rel[0].body[0]), stable_only=False, after_loops=False)
+        extra_at = sorted(a for a in at2 if a not in allowed and not a.startswith("IN-LOOP:"))
+        ok = not extra_at
+    ctx.ob("C09-O1", "R21 search discipline", bf, "the path search relaxes every residual edge (forward and backward) of a reached node that has capacity left, on strict improvement", ok, (f"relaxation additionally requires {extra_at}: with negative residual costs any reached node can still shorten a path, so a pruned relaxation returns a non-shortest augmenting path and the final cost is not minimal" if extra_at else ""), node=bf.node)
     ok = any(ast.unparse(x) == "dist[v] = dist[u] + edge_cost[e]" for x in rel[0].body) and any(ast.unparse(x) == "parent_edge[v] = e" for x in rel[0].body) if rel else False
     ctx.ob("C09-O1", "R21 search discipline", bf, "distance and parent edge are stored together", ok, "", node=bf.node)
     bt = ast.unparse(bf.node)
@@ -138,6 +144,16 @@ def run(ctx: Ctx):
     ctx.ob("C09-O6", "R18 table", rf_, "refresh recomputes depth = parent's + 1 and the potential that gives the tree arc zero reduced cost, for every node below the root", "depth[node] = depth[p] + 1" in tr_ and "pi[node] = pi[p] + cost[arc]" in tr_ and "pi[node] = pi[p] - cost[arc]" in tr_ and "if source[arc] == node:" in tr_ and "children[parent[node]].append(node)" in tr_, "", node=rf_.node)
     forced = [n for n in own_nodes(ns.node) if isinstance(n, ast.Assign) and ast.unparse(n) == "state[pred[node]] = 0"]
     ctx.ob("C09-O6", "R27 WRITE-OWNERSHIP", ns, "tree arcs are kept basic whatever their flow (initially and after every recomputation of the arc states)", len(forced) == 2, f"{len(forced)} sites", node=ns.node)
+    # status 0 ("basic") is written only to tree arcs: pred[node], the flow-based recomputation (followed by the forcing), or
+    # the entering arc of a pivot in which another arc leaves
+    for n in own_nodes(ns.node):
+        if isinstance(n, ast.Assign) and ast.unparse(n.targets[0]).startswith("state[") and ast.unparse(n.value) == "0":
+            x = ast.unparse(n.targets[0].slice)
+            nn = ncfg2.node_of(n)
+            lp = nn.loop
+            in_recompute = lp is not None and lp.kind == "for" and ast.unparse(lp.ast.iter) == "range(total_arcs)" and ast.unparse(lp.ast.target) == x
+            okb = x.startswith("pred[") or in_recompute or (x == "entering" and atom_of("leaving != entering") in GuardView(ncfg2).guard_atoms(nn, stable_only=False))
+            ctx.ob("C09-O6", "R27 WRITE-OWNERSHIP", ns, f"`{ast.unparse(n)}` marks a tree arc", okb, "in a bound flip the entering arc is also the leaving arc and stays outside the tree: marked basic it is never priced again and its flow can never be taken back", node=n)
     recompute = [n for n in own_nodes(ns.node) if isinstance(n, ast.For) and ast.unparse(n.iter) == "range(total_arcs)" and "state[arc] = 1" in ast.unparse(n)]
     ok = bool(recompute) and all(any(ncfg2.dominates(ncfg2.stmt_node_containing(r_.iter), ncfg2.node_of(f_)) and ncfg2.node_of(f_).loop is not ncfg2.stmt_node_containing(r_.iter) for f_ in forced) for r_ in recompute)
     ctx.ob("C09-O6", "R27 WRITE-OWNERSHIP", ns, "each flow-based recomputation of the arc states is followed by forcing the tree arcs basic", ok, "", node=ns.node)
@@ -261,6 +277,21 @@ def _v_infeasible_wrong(tree):
     M.replace_expr(g, lambda e: M.src_is(e, "path is None"), M.expr("path is None or path_cost > 0"))
 
 
+def _v_bf_bound_prune(tree):
+    g = M.find_func(tree, "min_cost_flow.bellman_ford")
+    M.replace_stmt(g, lambda s: isinstance(s, ast.For) and M.src_is(s.iter, "nodes") and M.src_has(s, "edge_cost"), lambda s: M.stmts("bound = dist.get(sink, float('inf'))") + [s])
+    M.replace_expr(g, lambda e: M.src_is(e, "dist[u] == float('inf')"), M.expr("dist[u] == float('inf') or dist[u] >= bound"))
+
+
+def _v_ns_local_state_update(tree):
+    g = M.find_func(tree, "network_simplex")
+    loops = [n for n in ast.walk(g) if isinstance(n, ast.For) and M.src_is(n.iter, "range(total_arcs)") and M.src_has(n, "state[arc] = 1")]
+    if len(loops) < 2:
+        raise M.Skip("post-pivot state recomputation not found")
+    last = max(loops, key=lambda n: n.lineno)
+    M.replace_stmt(g, lambda s: s is last, M.stmts("state[leaving] = 1 if flow[leaving] == 0 else -1\nstate[entering] = 0"))
+
+
 def _t_reformat(tree):
     pass
 
@@ -281,6 +312,8 @@ VARIANTS = [
     M.Variant("assignment demand = number of rows", FL, _v_assignment_demand, "C09-O4"),
     M.Variant("assignment hides the flow status", FL, _v_assignment_status, "C09-O4"),
     M.Variant("INFEASIBLE also when the path is expensive", FL, _v_infeasible_wrong, "C09-O3"),
+    M.Variant("Bellman-Ford skips nodes no closer than the sink (seed C09-C)", FL, _v_bf_bound_prune, "C09-O1"),
+    M.Variant("network simplex updates only the leaving and entering arc states (seed C09-D)", NS, _v_ns_local_state_update, "C09-O6"),
     M.Variant("twin: reformat flow", FL, _t_reformat, None),
     M.Variant("twin: reformat network simplex", NS, _t_reformat, None),
 ]
